@@ -135,7 +135,7 @@ func (fc *FuncCtx) evalRecv(st *State, x ast.Expr, sel *types.Selection) Val {
 		}
 		return cur
 	}
-	if wantPtr && pointee(xt) == nil && !isStruct(xt) && fc.isAddressable(x) {
+	if wantPtr && pointee(xt) == nil && (!isStruct(xt) || (fc.bindOf(xt) != "" && strings.HasSuffix(fc.bindOf(types.NewPointer(xt)), "ptr"))) && fc.isAddressable(x) {
 		// implicit &x for non-struct addressable receiver
 		l := fc.evalLoc(st, x)
 		return Val{Loc: l, Typ: types.NewPointer(xt)}
